@@ -238,6 +238,120 @@ theorem manifest_offending_key_rejected (target : Path) (st : St) (es : List Ent
     | true => have := List.all_eq_true.mp hv e he; simp_all
   simp [loadAndDeploy, this]
 
+/-! ### the string test of the code is the component test of the model -/
+
+private theorem isPrefixOf_name_sep (x y r1 r2 : S) (hx : '/' ∉ x) (hy : '/' ∉ y) :
+    (x ++ '/' :: r1).isPrefixOf (y ++ '/' :: r2) = (x == y && r1.isPrefixOf r2) := by
+  induction x generalizing y with
+  | nil =>
+    cases y with
+    | nil => simp
+    | cons d y' =>
+      have hd : d ≠ '/' := fun e => hy (by simp [e])
+      have : ('/' == d) = false := by simpa using Ne.symm hd
+      simp [List.isPrefixOf_cons_cons, this]
+  | cons c x' ih =>
+    have hc : c ≠ '/' := fun e => hx (by simp [e])
+    have hx' : '/' ∉ x' := fun e => hx (by simp [e])
+    cases y with
+    | nil =>
+      have : (c == '/') = false := by simpa using hc
+      simp [List.isPrefixOf_cons_cons, this]
+    | cons d y' =>
+      have hy' : '/' ∉ y' := fun e => hy (by simp [e])
+      simp only [List.cons_append, List.isPrefixOf_cons_cons, ih y' hx' hy']
+      by_cases hcd : c = d
+      · subst hcd; simp
+      · have : (c == d) = false := by simpa using hcd
+        simp [this, hcd]
+
+private theorem compsText_sep_head (l : List S) : ∃ r, compsText l ++ ['/'] = '/' :: r := by
+  cases l with
+  | nil => exact ⟨[], rfl⟩
+  | cons x l' => exact ⟨x ++ compsText l' ++ ['/'], by simp [compsText]⟩
+
+private theorem compsText_prefix (a b : List S) (h : ∀ x ∈ a ++ b, '/' ∉ x) :
+    (compsText a ++ ['/']).isPrefixOf (compsText b ++ ['/']) = a.isPrefixOf b := by
+  induction a generalizing b with
+  | nil =>
+    obtain ⟨r, hr⟩ := compsText_sep_head b
+    simp [compsText, hr]
+  | cons x a' ih =>
+    cases b with
+    | nil =>
+      obtain ⟨r, hr⟩ := compsText_sep_head a'
+      have hne : x ++ '/' :: r ≠ [] := by simp
+      cases hxr : x ++ '/' :: r with
+      | nil => exact absurd hxr hne
+      | cons c t => simp [compsText, hr, hxr, List.isPrefixOf_cons_cons, List.isPrefixOf]
+    | cons y b' =>
+      have hx : '/' ∉ x := h x (by simp)
+      have hy : '/' ∉ y := h y (by simp)
+      have h' : ∀ z ∈ a' ++ b', '/' ∉ z := by
+        intro z hz
+        apply h z
+        rcases List.mem_append.mp hz with hz | hz
+        · simp [hz]
+        · simp [hz]
+      obtain ⟨r1, hr1⟩ := compsText_sep_head a'
+      obtain ⟨r2, hr2⟩ := compsText_sep_head b'
+      have ih' := ih b' h'
+      rw [hr1, hr2] at ih'
+      simp only [List.isPrefixOf_cons_cons, beq_self_eq_true, Bool.true_and] at ih'
+      simp only [compsText, List.cons_append, List.append_assoc, List.isPrefixOf_cons_cons, beq_self_eq_true,
+        Bool.true_and, hr1, hr2]
+      rw [isPrefixOf_name_sep x y r1 r2 hx hy, ih']
+
+/-- **The string comparison the code performs is the comparison of the model**: for locations whose component
+names contain no separator (every real path), "`realpath(dest) + '/'` is the common prefix of itself and
+`realpath(p) + '/'`" holds exactly when `p` is `dest` or lies below it component-wise.  The appended separator
+is what makes the character-wise test a component-wise one. -/
+theorem underTextSep_eq_under (dest p : Path) (h : ∀ x ∈ dest ++ p, '/' ∉ x) :
+    underTextSep dest p = under dest p := by
+  unfold underTextSep under pathText
+  rw [compsText_prefix dest.reverse p.reverse (by
+    intro x hx
+    apply h x
+    rcases List.mem_append.mp hx with hx | hx
+    · exact List.mem_append.mpr (Or.inl (List.mem_reverse.mp hx))
+    · exact List.mem_append.mpr (Or.inr (List.mem_reverse.mp hx)))]
+  rfl
+
+private theorem compsText_append (a b : List S) : compsText (a ++ b) = compsText a ++ compsText b := by
+  induction a with
+  | nil => rfl
+  | cons x a' ih => simp [compsText, ih]
+
+/-- without the separator the string test is only NECESSARY: everything under `dest` passes it … (what else
+passes: `Witness.C18.string_prefix_accepts_sibling`) -/
+theorem under_imp_underText (dest p : Path) (h : under dest p = true) : underText dest p = true := by
+  unfold under at h
+  unfold underText pathText
+  have hs : dest <:+ p := by simpa using h
+  obtain ⟨t, ht⟩ := hs
+  rw [← ht, List.reverse_append, compsText_append]
+  simp
+
+/-- the parametrised deployment step with the component test is the repaired code -/
+theorem deployOneWith_under (target : Path) (st : St) (e : Entry) :
+    deployOneWith under target st e = deployOne true target st e := by
+  unfold deployOneWith deployOne
+  simp only [Bool.true_and, Bool.true_eq_false, if_false]
+  rfl
+
+theorem deployAllWith_under (target : Path) (es : List Entry) :
+    ∀ st, deployAllWith under target st es = deployAll true target st es := by
+  induction es with
+  | nil => intro st; rfl
+  | cons e es ih =>
+    intro st
+    simp only [deployAllWith, deployAll, deployOneWith_under]
+    cases deployOne true target st e with
+    | mk st1 r =>
+      cases r with
+      | none => exact ih st1
+      | some x => rfl
+
 /-! ### the hypotheses are satisfiable and the statements are not vacuous -/
 
 /-- sandbox used in the examples: `/i/w` is the working directory, `/o` is outside -/
